@@ -194,12 +194,12 @@ var stmtWrappers = []wrapper{
 	swg("derived-table-join", "derived-join-lateral", "SELECT * FROM t JOIN LATERAL (", ") d ON 1=1"),
 	swg("derived-table-join", "derived-join-second", "SELECT * FROM t JOIN u ON 1=1 JOIN (", ") d ON 1=1"),
 	swg("derived-table-join", "derived-both", "SELECT * FROM (SELECT 1) e JOIN (", ") d ON 1=1"),
-	sw("cte", "WITH c AS (", ") SELECT * FROM c"),
-	sw("cte-second", "WITH b AS (SELECT 1), c AS (", ") SELECT 1"),
-	sw("cte-recursive", "WITH RECURSIVE c AS (", ") SELECT 1"),
-	sw("cte-materialized", "WITH c AS MATERIALIZED (", ") SELECT 1"),
-	sw("cte-columns", "WITH c (a) AS (", ") SELECT 1"),
-	sw("cte-insert-main", "WITH c AS (", ") INSERT INTO t (a) SELECT 1"),
+	swg("cte-body", "cte", "WITH c AS (", ") SELECT * FROM c"),
+	swg("cte-body", "cte-second", "WITH b AS (SELECT 1), c AS (", ") SELECT 1"),
+	swg("cte-body", "cte-recursive", "WITH RECURSIVE c AS (", ") SELECT 1"),
+	swg("cte-body", "cte-materialized", "WITH c AS MATERIALIZED (", ") SELECT 1"),
+	swg("cte-body", "cte-columns", "WITH c (a) AS (", ") SELECT 1"),
+	swg("cte-body", "cte-insert-main", "WITH c AS (", ") INSERT INTO t (a) SELECT 1"),
 	sw("select-scalar", "SELECT (", ")"),
 	sw("select-scalar-from", "SELECT (", ") FROM t"),
 	sw("where-in", "SELECT 1 FROM t WHERE a IN (", ")"),
